@@ -222,13 +222,15 @@ def legacy_refs(dsk, o, dict_elementwise=True, tuple_elementwise=False):
 # ---------------------------------------------------------------------------------------------
 
 def gen_key(rng, i, kind=None):
+    """keys of all shapes, *including the falsy ones* `0`, `''` and `()` (index 0 of the int / str / tuple kinds):
+    a key's truth value must never matter"""
     kind = kind or rng.choice(["str", "str", "int", "tuple", "tuple3"])
     if kind == "str":
-        return f"k{i}"
+        return "" if i == 0 else f"k{i}"
     if kind == "int":
-        return 100 + i
+        return i            # 0, 1, 2, ... : small ints also collide with int literals (references by equality)
     if kind == "tuple":
-        return {"t": ["x", i]}
+        return {"t": []} if i == 0 else {"t": ["x", i]}
     return {"t": [f"y{i}", 0, i % 2]}
 
 
